@@ -86,13 +86,32 @@ int next_backend_desc = 0;
  * @returns pointer to a registered liberasurecode instance
  * The caller must hold active_instances_rwlock
  */
-ec_backend_t liberasurecode_backend_instance_get_by_desc(int desc)
+static ec_backend_t liberasurecode_backend_instance_find(int desc)
 {
     struct ec_backend *b = NULL;
     SLIST_FOREACH(b, &active_instances, link) {
         if (b->idesc == desc)
             break;
     }
+    return b;
+}
+
+/**
+ * Look up a backend instance by descriptor
+ *
+ * Takes active_instances_rwlock for reading while walking the registry
+ *
+ * @returns pointer to a registered liberasurecode instance
+ */
+ec_backend_t liberasurecode_backend_instance_get_by_desc(int desc)
+{
+    struct ec_backend *b = NULL;
+
+    if (rwlock_rdlock(&active_instances_rwlock) != 0)
+        return NULL;
+    b = liberasurecode_backend_instance_find(desc);
+    rwlock_unlock(&active_instances_rwlock);
+
     return b;
 }
 
@@ -108,7 +127,7 @@ int liberasurecode_backend_alloc_desc(void)
         if (next_backend_desc < 0 || next_backend_desc == INT_MAX)
             next_backend_desc = 0;
         ++next_backend_desc;
-        if (!liberasurecode_backend_instance_get_by_desc(next_backend_desc))
+        if (!liberasurecode_backend_instance_find(next_backend_desc))
             return next_backend_desc;
     }
 }
@@ -315,9 +334,7 @@ int liberasurecode_instance_create(const ec_backend_id_t id,
     }
 
     /* Register instance and return a descriptor/instance id */
-    instance->idesc = liberasurecode_backend_instance_register(instance);
-
-    return instance->idesc;
+    return liberasurecode_backend_instance_register(instance);
 }
 
 /**
